@@ -1,5 +1,4 @@
 """C11 - A silent or absent slave cannot hang the bus (bus timeouts of the three interconnect standards)."""
-import itertools
 
 from hypothesis import strategies as st
 
@@ -19,6 +18,8 @@ RULE = ("shared interconnect of each bus standard (wishbone.InterconnectShared, 
         "distinct = canonical JSON")
 ASSUMPTIONS = ["Migen's simulator (site-packages) defines FHDL semantics",
                "masters keep a request stable until it is terminated and never abort; slaves never assert err",
+               "AXI: W is presented ahead of AW only in single-master cases (the shared arbiter releases the write channels between a lone W "
+               "and its AW: write interleaving between masters is C08's subject)",
                "registered Wishbone decode needs slave latency >= 1 (code comment), hence T >= 2 there",
                "Wishbone: in the expiry cycle itself either outcome is accepted (slave answer or error termination), but not a mixture",
                "AXI: the timers watch address/data acceptance only (docstring: 'master _has_ to respond correctly'); main class = one "
@@ -358,6 +359,7 @@ K_PIPE = "c11:axi-respond-absorbs-pipelined"
 K_SKEW = "c11:axi-b-before-w"
 K_RACE = "c11:axi-late-accept-race"
 K_MERGED = "c11:axi-error-pulse-merged"
+K_HALF = "c11:axi-half-accepted-write"
 
 
 def _ax_tag(m, lane, i):
@@ -438,7 +440,12 @@ def st_axi(std):
                                     o["wacc"] = draw(st.sampled_from(codes))
                                 if o["tgt"] < 0 or slv[o["tgt"]]["atomic"] or klass == "partial":
                                     sk = draw(st.sampled_from([0, 0, 0, 1, T, T + 1, T + 2]))
-                                    o["d_off" if draw(st.booleans()) else "a_off"] = sk
+                                    # W ahead of AW only with a single master: the shared arbiter releases the write channels
+                                    # between a lone W and its AW (write interleaving between masters, C08's subject)
+                                    o["d_off" if (draw(st.booleans()) or M > 1) else "a_off"] = sk
+                                    if o["tgt"] >= 0 and sk + o["acc"] == T + 1 and klass != "partial":
+                                        # an atomic slave answers acc cycles after BOTH parts are there: skew + acc = T+1 is class 'race'
+                                        o["acc"] = o["wacc"] = min(14, o["acc"] + 1)
                         ops.append(o)
                     lanes[lane] = ops
                 mast.append({"w": lanes["w"], "r": lanes["r"], "idle": [draw(st.integers(0, 1)), draw(st.integers(0, 1))]})
@@ -465,7 +472,7 @@ def st_axi(std):
                         q.pop("nb", None)
                 elif klass == "skew":
                     o.update({"tgt": -1, "hole": 0, "a_off": 0, "d_off": 0})
-                    o["d_off" if draw(st.booleans()) else "a_off"] = T + 3 + draw(st.integers(0, 3))
+                    o["d_off" if (draw(st.booleans()) or M > 1) else "a_off"] = T + 3 + draw(st.integers(0, 3))
                 elif klass == "race" and T + 1 <= 14:
                     o.update({"tgt": draw(st.integers(0, S - 1)), "acc": T + 1, "wacc": T + 1, "a_off": 0, "d_off": 0,
                               "rl": draw(st.sampled_from([1, 4, 6]))})
@@ -613,10 +620,19 @@ def run_axi(case):
                         continue
                     for x in exps.get((m, ln), []):
                         if fv <= x and t_acc[1] == x + 1:
+                            cons = ""
+                            for m2, a2 in enumerate(mags):
+                                for i2, L2 in enumerate(a2.rl.log):
+                                    if L2["resp"] is not None and L2["resp"][1] == c11lib.RESP_OKAY:
+                                        o2 = case["mast"][m2]["r"][i2]
+                                        rd2 = [r_ for r_ in sags[o2["tgt"]].reads if r_[1] == _ax_tag(m2, 1, i2)] if o2["tgt"] >= 0 else []
+                                        if rd2 and rd2[0][3] != L2["resp"][2] and not cons:
+                                            cons = "; consequence: master %d read %d of %#x received %#x, the slave had answered %#x" % (
+                                                m2, i2, _ax_addr(o2, m2, 1, i2), L2["resp"][2], rd2[0][3])
                             return ret("late-accept-race", "master %d %s %d %r: the timeout fired in cycle %d and absorbs %s in cycle %d, but the "
                                        "slave's ready arrives in that same cycle and slave %d takes the request too (its late response then "
                                        "answers a later request or arrives as a stray)" %
-                                       (m, "write" if ln == "w" else "read", i, case["mast"][m][ln][i], x, ch.upper(), x + 1, t_acc[0]), K_RACE)
+                                       (m, "write" if ln == "w" else "read", i, case["mast"][m][ln][i], x, ch.upper(), x + 1, t_acc[0]) + cons, K_RACE)
 
     # ---- hang ?
     hung = []
@@ -637,6 +653,10 @@ def run_axi(case):
             why = " (pipelined requests: the RESPOND state absorbs every request presented while it waits to answer)"
         elif key == K_SKEW:
             why = " (after a write response issued before both AW and W were absorbed)"
+        elif any(dirty):
+            key, why = K_HALF, (" (an earlier forced termination left slave %d holding half a write; its mis-paired responses since then have "
+                                "desynchronised the interconnect's outstanding-request counters: nothing is waiting on the shared bus, so no timeout fires)" %
+                                dirty.index(True))
         elif taken and o["rl"] == c11lib.NEVER:
             key, why = K_SILENT, " (the slave accepted the request and never responds: the timers only watch acceptance)"
         return ret("termination", "master %d %s operation %d %r never completed (%d cycles)%s; %d lane(s) blocked" %
@@ -952,18 +972,18 @@ def run_soc(case):
 
 def subchecks():
     return [
-        Sub("wishbone", run_wb, strategy=st_wb, examples=(3000, 60000), timeout=(600, 7200),
+        Sub("wishbone", run_wb, strategy=st_wb, examples=(2000, 40000), timeout=(600, 7200),
             rule="generated shared Wishbone interconnects with per-request slave latencies, silent windows and recovery programs"),
         Sub("wishbone-exhaustive", run_wb, enum=enum_wb, exhaustive=True,
             rule="T=1..4 x ALL answer offsets 0..T+2/never (two mechanisms) x rd/wr x unmapped x 1-2 masters x held cyc x registered"),
-        Sub("axi-lite", run_axi, strategy=st_axi("axil"), examples=(2400, 50000), timeout=(600, 7200),
+        Sub("axi-lite", run_axi, strategy=st_axi("axil"), examples=(1440, 30000), timeout=(600, 7200),
             rule="AXILiteInterconnectShared: request-relative accept latencies around expiry, silent windows per channel, AW-W skew, "
                  "response back-pressure, recovery; classes partial/silent/pipe/skew/race generated, the last four with their own finding keys"),
-        Sub("axi", run_axi, strategy=st_axi("axi"), examples=(1000, 20000), timeout=(600, 7200),
+        Sub("axi", run_axi, strategy=st_axi("axi"), examples=(480, 10000), timeout=(600, 7200),
             rule="AXIInterconnectShared with single-beat bursts, same agents and oracle"),
         Sub("crossbars", run_xbar, enum=enum_xbar, exhaustive=True,
             rule="Crossbar / AXILiteCrossbar / AXICrossbar / SoCCore(bus_interconnect='crossbar') built with timeout T in {1,4,16} x unmapped or silent target x rd/wr"),
-        Sub("soc-counter", run_soc, strategy=st_soc, examples=(320, 6000), timeout=(600, 7200),
+        Sub("soc-counter", run_soc, strategy=st_soc, examples=(240, 5000), timeout=(600, 7200),
             rule="CPU-less SoCCore (wishbone / axi-lite, shared) with bus_timeout=T and a test master: programs over unmapped addresses, SRAM and the "
                  "scratch CSR; ctrl.bus_errors (signal and read through the bus) == number of forced terminations"),
     ]
